@@ -27,6 +27,14 @@ class VClock:
 VCLOCK = VClock()
 time.monotonic = VCLOCK.monotonic
 
+# Address-space cap: an engine that tries to build a gigantic value (a change that drops a size check) gets the host's
+# MemoryError - judged like any other host exception - instead of being killed by the kernel (which would be a machinery failure)
+try:
+    import resource
+    _cap = int(float(os.environ.get("VERIF_CHILD_AS_GB", "6")) * 2 ** 30)
+    resource.setrlimit(resource.RLIMIT_AS, (_cap, _cap))
+except Exception:                   # not available: the kernel's own limits apply
+    pass
 import microjs                      # noqa: E402  (after the clock patch, on purpose)
 from microjs import Context         # noqa: E402
 from microjs import errors as E     # noqa: E402
